@@ -277,6 +277,7 @@ class Session:
         P["x3"], P["xu3"], self.cell3 = self.traj(3, N3, T, self.K[3], ok3)
         N2, N3 = P["x2"].snapshots[0].nparticle, P["x3"].snapshots[0].nparticle
         self.N = {2: N2, 3: N3}
+        P["xt2"], P["xt3"] = self.sheared(2), self.sheared(3)
         # a tiny 3-D trajectory in a box centred on the origin (bounds sum to zero) and a tiny 2-D one: Voronoi volume response
         P["tiny3"], _, self.cellt3 = self.traj(3, 9, 2, 1, "centred")
         P["tiny2"], _, self.cellt2 = self.traj(2, 10, 2, 1, str(rng.choice(["zero", "centred", "asym"])))
@@ -319,8 +320,24 @@ class Session:
         P["evecs"] = q
         P["freqs"] = rng.uniform(0.5, 5, size=nm)
 
-    def snap(self, d, xu=False):
+    def snap(self, d, xu=False, tri=False):
+        if tri:
+            return self.pool["xt" + str(d)]
         return self.pool[("xu" if xu else "x") + str(d)]
+
+    def sheared(self, d):
+        """the wrapped trajectory of dimension d re-expressed in a triclinic cell with the SAME edge lengths and an own tilt per frame
+        (same particles, types and fractional coordinates): analyses called on it and on the orthogonal one interleave in a program"""
+        rng = self.rng
+        base = self.pool["x" + str(d)]
+        cell = dict(self.cell2 if d == 2 else self.cell3)
+        cell["kind"] = "tri"
+        out = []
+        for s in base.snapshots:
+            c = gc.retilt(rng, cell)
+            frac = (s.positions - cell["origin"]) / np.diag((self.cell2 if d == 2 else self.cell3)["H"])
+            out.append(gc.snapshot_from(c, frac, s.particle_type.copy(), timestep=s.timestep))
+        return gc.snapshots_from(out)
 
 
 # ------------------------------------------------------------------ entry-point recipes
@@ -357,13 +374,14 @@ def recipes():
         d = int(rng.choice([2, 3]))
         w = float(rng.choice([0.05, 0.1, 0.2]))
         out = rng.random() < 0.5
-        sn, ppp = S.snap(d), S.pool[f"ppp{d}"]
+        tri = bool(rng.random() < 0.35)
+        sn, ppp = S.snap(d, tri=tri), S.pool[f"ppp{d}"]
 
         def thunk(o):
             p = J(o, "gr.csv") if out else None
             res = m_gr.gr(sn, ppp=ppp, rdelta=w, outputfile=p).getresults()
             return res, ({p: res.values} if out else {})
-        return dict(name="gr.getresults", par=(d, w, out), thunk=thunk, make=lambda: m_gr.gr(sn, ppp=ppp, rdelta=w, outputfile=None),
+        return dict(name="gr.getresults", par=(d, w, out, tri), thunk=thunk, make=lambda: m_gr.gr(sn, ppp=ppp, rdelta=w, outputfile=None),
                     call=lambda b, o, meth=None: (b.getresults(), {}), methods=["getresults"])
 
     @reg
@@ -390,8 +408,9 @@ def recipes():
         kind = str(rng.choice(["scal", "cplx", "bool", "vec", "ten"]))
         t = int(rng.integers(0, S.T))
         ctype = {"vec": "vector", "ten": "tensor"}.get(kind)
-        sn, ppp, cond = S.snap(d).snapshots[t], S.pool[f"ppp{d}"], S.pool[f"{kind}{d}"][t]
-        return dict(name="conditional_gr", par=(d, kind, t),
+        tri = bool(rng.random() < 0.35)
+        sn, ppp, cond = S.snap(d, tri=tri).snapshots[t], S.pool[f"ppp{d}"], S.pool[f"{kind}{d}"][t]
+        return dict(name="conditional_gr", par=(d, kind, t, tri),
                     thunk=lambda o: (m_gr.conditional_gr(sn, cond, ctype, ppp, 0.1), {}))
 
     @reg
@@ -426,20 +445,22 @@ def recipes():
     def r_nnearest(S, rng):
         d = int(rng.choice([2, 3]))
         Nn = int(rng.integers(3, 9))
-        sn, ppp = S.snap(d), S.pool[f"ppp{d}"]
+        tri = bool(rng.random() < 0.35)
+        sn, ppp = S.snap(d, tri=tri), S.pool[f"ppp{d}"]
 
         def thunk(o):
             p = J(o, "nn.dat")
             r = m_cn.Nnearests(sn, Nn, ppp, p)
             return [r, read_files([p])], {}
-        return dict(name="Nnearests", par=(d, Nn), thunk=thunk)
+        return dict(name="Nnearests", par=(d, Nn, tri), thunk=thunk)
 
     @reg
     def r_cutoff(S, rng):
         d = int(rng.choice([2, 3]))
         rc = float(rng.uniform(1.2, 1.9))
         typed = rng.random() < 0.5
-        sn, ppp = S.snap(d), S.pool[f"ppp{d}"]
+        tri = bool(rng.random() < 0.35)
+        sn, ppp = S.snap(d, tri=tri), S.pool[f"ppp{d}"]
         K = S.K[d]
         rcm = np.full((K, K), rc) * (1 + 0.1 * np.arange(K)[:, None])
 
@@ -447,7 +468,7 @@ def recipes():
             p = J(o, "cut.dat")
             r = m_cn.cutoffneighbors_particletype(sn, rcm, ppp, p) if typed else m_cn.cutoffneighbors(sn, rc, ppp, p)
             return [r, read_files([p])], {}
-        return dict(name="cutoffneighbors_particletype" if typed else "cutoffneighbors", par=(d, rc, typed), thunk=thunk, args={"rcm": rcm})
+        return dict(name="cutoffneighbors_particletype" if typed else "cutoffneighbors", par=(d, rc, typed, tri), thunk=thunk, args={"rcm": rcm})
 
     @reg
     def r_voronoi(S, rng):
@@ -567,13 +588,14 @@ def recipes():
     @reg
     def r_tetra(S, rng):
         out = rng.random() < 0.5
-        sn, ppp = S.snap(3), S.pool["ppp3"]
+        tri = bool(rng.random() < 0.35)
+        sn, ppp = S.snap(3, tri=tri), S.pool["ppp3"]
 
         def thunk(o):
             p = J(o, "q8.npy") if out else ""
             r = m_geo.q8_tetrahedral(sn, ppp, p)
             return r, ({p: r} if out else {})
-        return dict(name="q8_tetrahedral", par=(out,), thunk=thunk)
+        return dict(name="q8_tetrahedral", par=(out, tri), thunk=thunk)
 
     @reg
     def r_pack(S, rng):
@@ -595,7 +617,8 @@ def recipes():
         meth = str(rng.choice(["particle_s2", "particle_s2", "spatial_corr", "time_corr"]))
         out = rng.random() < 0.5
         mean_norm = bool(rng.random() < 0.5)
-        sn, ppp, sig = S.snap(d), S.pool[f"ppp{d}"], S.pool[f"s2sig{d}"]
+        tri = bool(rng.random() < 0.35)
+        sn, ppp, sig = S.snap(d, tri=tri), S.pool[f"ppp{d}"], S.pool[f"s2sig{d}"]
 
         def call(b, o, meth=meth):
             if meth == "particle_s2":
@@ -615,7 +638,7 @@ def recipes():
 
         def thunk(o):
             return call(m_s2.S2(sn, sig, ppp, 0.05, 40), o)
-        return dict(name="S2." + meth, par=(d, out, mean_norm), thunk=thunk, call=call, make=lambda: m_s2.S2(sn, sig, ppp, 0.05, 40),
+        return dict(name="S2." + meth, par=(d, out, mean_norm, tri), thunk=thunk, call=call, make=lambda: m_s2.S2(sn, sig, ppp, 0.05, 40),
                     methods=["particle_s2", "spatial_corr", "time_corr"])
 
     @reg
@@ -811,7 +834,8 @@ def recipes():
         which = str(rng.choice(["remove_pbc", "moment_of_inertia", "triangle_area", "grid_gaussian", "convert_configuration"]))
         if which == "moment_of_inertia":
             d = 3
-        sn = S.snap(d).snapshots[0]
+        tri = bool(rng.random() < 0.5)
+        sn = S.snap(d, tri=tri and which == "remove_pbc").snapshots[int(rng.integers(0, S.T))]
         v, ppp = S.pool[f"vec{d}"][0], S.pool[f"ppp{d}"]
         tri = S.snap(2).snapshots[0].positions[:3]
 
@@ -826,7 +850,7 @@ def recipes():
                 return m_funcs.grid_gaussian(S.pool[f"scal{d}"][0], 1.3), {}
             b, p = m_fr.convert_configuration(S.snap(d))
             return [np.asarray(x) for x in p], {}
-        return dict(name=which, par=(d,), thunk=thunk)
+        return dict(name=which, par=(d, tri), thunk=thunk)
 
     return R
 
